@@ -523,6 +523,9 @@ def _symmetric_closure(ctx: Ctx, fi: FuncInfo, pm, node, it, kind) -> Optional[s
             continue                            # dead branch
         if isinstance(st, ast.If) and norm(st.test) == f'{v} not in {D}' and not st.orelse and len(st.body) == 1 and norm(st.body[0]) in empties:
             continue
+        if isinstance(st, ast.If) and norm(st.test) == f'{v} not in {D}' and not st.orelse and len(st.body) == 1 and isinstance(st.body[0], ast.Assign) \
+                and isinstance(st.body[0].targets[0], ast.Subscript) and norm(st.body[0].targets[0].value) == D and norm(st.body[0].value) in ('set()', 'list()', '[]', '()', 'frozenset()'):
+            continue                            # creates some (other) empty entry: still only the key order of D is affected
         return None
     # D must not be iterated anywhere else in the function
     for x in walk_local(fi.node):
